@@ -268,10 +268,64 @@ def rule_corpus():
     return list(dict.fromkeys(out))
 
 
+def consuming_rule_corpus():
+    """rule left-hand sides whose operands are taken from the input stack itself (not copied with DUP), so that a rule
+    that makes an operand unused forces a POP: `k OP`, `OP`, `DUP1 OP`, `k SWAP1 OP`"""
+    out = []
+    ops = BIN
+    for op in ops:
+        out.append(op)
+        out.append("DUP1 %s" % op)
+        for k in FAM["k"]:
+            out.append("%s %s" % (k, op))
+            out.append("%s SWAP1 %s" % (k, op))
+    for op in UN:
+        out += [op, "%s %s" % (op, op), "%s %s %s" % (op, op, op)]
+    for op in BIN:
+        out.append("%s ISZERO" % op)
+        out.append("%s ISZERO ISZERO" % op)
+    return out
+
+
 def fold_corpus(values=None):
     """PUSH b PUSH a OP for every binary operator over a grid of constants"""
     vals = values or [0, 1, 2, 31, 32, 255, 256, 2 ** 255 - 1, 2 ** 255, M - 1]
     return ["%s %s %s" % (push(b), push(a), op) for op in BIN for a in vals for b in vals]
+
+
+def load_store_corpus():
+    """several loads whose results stay on the stack across a later store that also uses them (the greedy back end
+    has to keep them: its bookkeeping of such values lives in sets)"""
+    out = []
+    loads = ["PUSH1 0x20 MLOAD", "PUSH1 0x0 MLOAD", "PUSH1 0x40 MLOAD", "PUSH1 0x1 SLOAD", "PUSH1 0x2 SLOAD", "PUSH1 0x60 MLOAD"]
+    import itertools
+    for k in (2, 3, 4):
+        for combo in itertools.islice(itertools.permutations(loads, k), 0, 40, 3):
+            pre = " ".join(combo)
+            for store in ("MSTORE", "SSTORE"):
+                if k == 2:
+                    out.append("%s SWAP1 DUP2 DUP2 ADD DUP4 %s" % (pre, store))
+                    out.append("%s DUP2 DUP2 MUL DUP4 %s" % (pre, store))
+                elif k == 3:
+                    out.append("%s DUP3 DUP3 ADD DUP2 ADD DUP5 %s" % (pre, store))
+                    out.append("%s SWAP2 DUP3 DUP2 XOR DUP5 %s" % (pre, store))
+                else:
+                    out.append("%s DUP4 DUP4 ADD DUP3 DUP3 ADD ADD DUP6 %s" % (pre, store))
+    return out
+
+
+def cse_corpus():
+    """blocks that compute the same expression twice (the front end unifies the copies and records a renaming),
+    with and without a store of a computed value afterwards"""
+    out = []
+    for op in ("ADD", "MUL", "AND", "SUB", "XOR", "LT"):
+        for op2 in ("MUL", "ADD", "OR"):
+            out.append("DUP2 DUP2 %s SWAP2 %s %s" % (op, op, op2))
+            out.append("DUP3 DUP3 %s SWAP2 %s PUSH1 0x40 MSTORE" % (op, op2))
+            out.append("DUP2 DUP2 %s DUP3 DUP3 %s %s DUP2 SSTORE" % (op, op, op2))
+            out.append("DUP1 DUP3 %s DUP2 DUP4 %s %s PUSH1 0x20 MSTORE8" % (op, op, op2))
+            out.append("DUP3 DUP3 %s SWAP2 %s DUP1 PUSH1 0x0 MSTORE PUSH1 0x20 MSTORE" % (op, op2))
+    return out
 
 
 def stack_corpus():
